@@ -41,7 +41,8 @@ theorem gen_expose_chain {K : Type} [Field K] [LinearOrder K] [IsStrictOrderedRi
   first
     | rfl
     | (simp only [Generated.C16.exposePre, Model.C16.exposePre, Model.C16.exposePreCap, clipAbove, clipBelow0,
-        Generated.C16.adcCap, Model.C16.adcCap, mul_comm, mul_left_comm, add_comm, add_left_comm]; done)
+        Generated.C16.adcCap, Model.C16.adcCap, Num.ofInt, Int.cast_one, Int.cast_zero, add_zero, zero_add, div_eq_mul_inv, one_div, one_mul, mul_one,
+        mul_comm, mul_left_comm, add_comm, add_left_comm]; done)
 
 /-- hence the generated chain is the model's -/
 theorem gen_expose {K : Type} [Field K] [LinearOrder K] [IsStrictOrderedRing K]
@@ -49,7 +50,8 @@ theorem gen_expose {K : Type} [Field K] [LinearOrder K] [IsStrictOrderedRing K]
     Generated.C16.exposePre img t dc dcnu prnu bias fwc gain bits = Model.C16.exposePre img t dc dcnu prnu bias fwc gain bits := by
   rw [gen_expose_chain, gen_adc_cap]; rfl
 
-/-- the result is reshaped to `(frames, *image.shape)` and squeezed only for a single frame -/
+/-- RECOGNISER FACT (no Lean content; the shape is checked on the real output in every correspondence case): the result is
+reshaped to `(frames, *image.shape)` and squeezed only for a single frame -/
 theorem gen_expose_shape : exposeShapeIsFramesByImage = true := by decide
 
 /-- `bindown`: output length `s // f`, view of shape `(s0//f0, f0, s1//f1, f1, …)`, reduction over the
@@ -63,13 +65,14 @@ theorem gen_tile {K : Type} [Num K] (s f : Int) (pf : K) :
     Generated.C16.tileOutLen s f = Model.C16.tileOutLen s f ∧ tileScaleSum pf = Num.ofInt 1 / pf ∧
     (tileScaleAvg : K) = Num.ofInt 1 ∧ tileViewBroadcastsOverFactor = true := ⟨rfl, rfl, rfl, by decide⟩
 
-/-- the four colour-site slices and every plane / site / gain / source table of `bayer.py` -/
+/-- the four colour-site slices and every plane / site / gain / source table of `bayer.py` (the `wb_postscale` gain
+of each channel included); `deinterlaceAveragesGreens` is a recogniser fact -/
 theorem gen_bayer :
     Generated.C16.siteSlices = Model.C16.siteSlices ∧ Generated.C16.decompSite = Model.C16.decompSite ∧
     Generated.C16.recompPlane = Model.C16.recompPlane ∧ Generated.C16.compositePlane = Model.C16.recompPlane ∧
     Generated.C16.prescaleGain = Model.C16.prescaleGain ∧ Generated.C16.malvarSrc = Model.C16.malvarSrc ∧
-    deinterlaceAveragesGreens = true := by
-  refine ⟨?_, ?_, ?_, ?_, ?_, ?_, by decide⟩
+    deinterlaceAveragesGreens = true ∧ Generated.C16.postscaleGain = Model.C16.postscaleGain := by
+  refine ⟨?_, ?_, ?_, ?_, ?_, ?_, by decide, by funext ch; cases ch <;> rfl⟩
   · funext s; cases s <;> rfl
   · funext c p; cases c <;> cases p <;> rfl
   · funext c s; cases c <;> cases s <;> rfl
@@ -86,12 +89,14 @@ theorem gen_kernels :
   funext s; cases s <;> simp only [Generated.C16.srcKernel, Model.C16.srcKernel] <;> decide +kernel
 
 /-- safe white-balance limiting: from a ratio `r ≥ 1` the loop step moves to `max r (mx / sat)` (running maximum,
-however the comparison is written), every colour plane is inspected (4 mosaic planes before demosaicking,
-3 channels after) and every gain is divided by the ratio -/
+however the comparison is written).  RECOGNISER FACTS (values written by the translator's pattern matcher): every colour
+plane is inspected (4 mosaic planes before demosaicking, 3 channels after) against its own saturation entry, and every
+gain is divided by the ratio -/
 theorem gen_wb_safe {K : Type} [Field K] [LinearOrder K] [IsStrictOrderedRing K] :
     IsMaxStep (wbPreSafeStep : K → K → K → K) ∧ IsMaxStep (wbPostSafeStep : K → K → K → K) ∧
-    wbPreSafePlanes = 4 ∧ wbPostSafePlanes = 3 ∧ wbPreSafeDividesEveryGain = true ∧ wbPostSafeDividesEveryGain = true := by
-  refine ⟨?_, ?_, by decide, by decide, by decide, by decide⟩ <;>
+    wbPreSafePlanes = 4 ∧ wbPostSafePlanes = 3 ∧ wbPreSafeDividesEveryGain = true ∧ wbPostSafeDividesEveryGain = true ∧
+    wbPreSafeSaturationPerPlane = true ∧ wbPostSafeSaturationPerPlane = true := by
+  refine ⟨?_, ?_, by decide, by decide, by decide, by decide, by decide, by decide⟩ <;>
   · intro r mx sat hr
     simp only [wbPreSafeStep, wbPostSafeStep, Model.C16.safeStep, Num.ofInt, Int.cast_one, max_def]
     grind
@@ -110,8 +115,9 @@ theorem dn_eq_model (img t dc dcnu prnu bias fwc gain : K) (bits : Int) :
   unfold dn Model.C16.expose
   rw [gen_expose, gen_cast_bits]
 
-/-- DN lie in `[0, 2^bits − 1]` for every bit depth 1…32 and EVERY input (any image value however far
-above full well or ADC range, any gain, bias, full-well capacity, non-uniformity) -/
+/-- DN lie in `[0, 2^bits − 1]` for every bit depth 1…32 and EVERY input of the noise-free chain (any image value
+however far above full well or ADC range, any gain, bias, full-well capacity, non-uniformity).  The unsigned cast is
+modelled as `⌊x⌋ mod 2^w` (assumption); with the real RNG negative or NaN rates are rejected by `np.random.poisson`. -/
 theorem dn_in_range (bits : Int) (h1 : 1 ≤ bits) (h32 : bits ≤ 32) (img t dc dcnu prnu bias fwc gain : K) :
     0 ≤ dn img t dc dcnu prnu bias fwc gain bits ∧ dn img t dc dcnu prnu bias fwc gain bits ≤ 2 ^ bits.toNat - 1 := by
   unfold dn
@@ -347,8 +353,9 @@ theorem malvar_kernels_symmetric (src : Src) (k : List (List Rat)) (h : Generate
   to_model
   cases src <;> simp only [Model.C16.srcKernel, Option.some.injEq, reduceCtorEq] at h <;> subst h <;> decide +kernel
 
-/-- unit-sum kernels at work: a uniform mosaic demosaicks to the same uniform level in every channel,
-at every sample, for every shape (reflect boundary included) and both layouts -/
+/-- unit-sum kernels at work: a uniform (unbounded) mosaic demosaicks to the same uniform level in every channel, at
+every sample, both layouts (the image is constant on all of ℕ × ℕ, so the boundary rule plays no role here; the reflect
+boundary is covered by the correspondence run only) -/
 theorem malvar_constant_level (cfa : Cfa) (m n : ℕ) (v : Rat) (ch : Chan) (R C : ℕ) :
     malvar Generated.C16.siteSlices (Generated.C16.malvarSrc cfa) m n (fun _ _ => v) ch R C = v := by
   unfold malvar
@@ -364,7 +371,8 @@ theorem malvar_constant_level (cfa : Cfa) (m n : ℕ) (v : Rat) (ch : Chan) (R C
       simp [convolve5, Num.sumTo, kernelAt, Model.C16.kernelGAtRB, Model.C16.kernelRAtGInRB, Model.C16.kernelRAtGInBR,
         Model.C16.kernelRAtBInBB, Model.C16.malvarDivisor, Num.ofInt] <;> ring
 
-/-- safe white balance: after dividing the gains by the generated limiting ratio, a plane scaled with unit
+/-- safe white balance (UNIT nominal gains only — with other gains `safe` promises nothing and nothing is claimed):
+after dividing the gains by the generated limiting ratio, a plane scaled with unit
 nominal gain does not exceed its saturation level — for every list of inspected planes `(max, saturation)`;
 and the ratio is exactly 1 (data untouched) when nothing is above saturation -/
 theorem wb_safe_limits {K : Type} [Field K] [LinearOrder K] [IsStrictOrderedRing K] (l : List (K × K)) :
